@@ -120,6 +120,8 @@ type RunResult struct {
 	Outcome                           Outcome
 	Polls                             int64
 	PollsAfterCancel                  int64
+	// RepoOutput: what the repository's own testing host (TestingVmExecutor) collected for the same writes
+	RepoOutput        string `json:",omitempty"`
 	WritesAfterCancel                 int
 	MsAfterCancel                     int64 `json:",omitempty"` // wall time between the cancellation and the return of the run
 	Residue                           Residue
